@@ -78,9 +78,16 @@ func genProbe(r *simrt.RNG, i int, nids int) ProbeSpec {
 	if r.Bool(0.5) {
 		p.Inputs = append(p.Inputs, InputSpec{Type: TypeB, Kind: kinds[r.Pick([]int{3, 2, 2})], ID: id()})
 	}
-	if r.Bool(0.3) {
+	switch r.Pick([]int{5, 3, 2}) {
+	case 1:
 		p.MoreAt = 1 + r.Intn(3)
 		p.More = []InputSpec{{Type: TypeC, Kind: kinds[r.Pick([]int{3, 2, 1})], ID: id()}}
+	case 2:
+		// re-declare the first input with another kind later on
+		p.MoreAt = 1 + r.Intn(3)
+		for p.KindChange == "" || p.KindChange == p.Inputs[0].Kind {
+			p.KindChange = kinds[r.Intn(3)]
+		}
 	}
 	return p
 }
@@ -103,8 +110,31 @@ func (c05) Gen(seed uint64, tier string) Case {
 	c.Pre = genWriteOps(r, 8, r.Intn(6), types, nids, &uniq, true)
 	np := 1 + r.Intn(4)
 	prefixes := []string{"rt"}
+	if r.Bool(0.25) {
+		// a crowd of controllers on one kind (by kind and by id), several registered while the runtime is running
+		np = 4 + r.Intn(4)
+		for i := 0; i < np; i++ {
+			p := ProbeSpec{Name: fmt.Sprintf("probe%d", i), RegisterMs: -1}
+			in := InputSpec{Type: TypeA, Kind: []string{"weak", "strong"}[r.Intn(2)]}
+			if r.Bool(0.3) {
+				in.ID = fmt.Sprintf("r%d", r.Intn(nids))
+			}
+			p.Inputs = []InputSpec{in}
+			if r.Bool(0.5) {
+				p.RegisterMs = r.Intn(3000)
+			}
+			if r.Bool(0.3) {
+				p.WorkMs = 1 + r.Intn(1500)
+			}
+			c.Probes = append(c.Probes, p)
+		}
+		np = 0
+	}
 	for i := 0; i < np; i++ {
 		c.Probes = append(c.Probes, genProbe(r, i, nids))
+	}
+	if r.Bool(0.2) {
+		c.RT.ListFaults = 1 + r.Intn(3)
 	}
 	maxOps := 8
 	if tier == "thorough" {
@@ -157,6 +187,11 @@ func (c05) Shrink(cs Case) []Case {
 	if len(c.RT.Cached) > 0 {
 		n := cloneJSON(c)
 		n.RT.Cached = nil
+		out = append(out, n)
+	}
+	if c.RT.ListFaults > 0 {
+		n := cloneJSON(c)
+		n.RT.ListFaults--
 		out = append(out, n)
 	}
 	for i, p := range c.Probes {
@@ -339,7 +374,7 @@ func (c05) Run(t *testing.T, cs Case, trace bool) *Outcome {
 	var acks []Ack
 	var ev int64
 	st, panics, berr := simrt.Run(t, simrt.Config{Seed: c.Seed, Policy: c.Policy, Trace: trace}, func(s *simrt.Sim) {
-		w, err := NewRuntimeWorld(c.Variant, HistCfg{}, c.RT)
+		w, err := NewRuntimeWorld(c.Variant, HistCfg{}, c.RT, out)
 		if err != nil {
 			out.HarnessErr = "runtime: " + err.Error()
 			return
